@@ -369,6 +369,15 @@ Lemma c02_guard_parts : forall pkg fuel sd, c02_guard pkg fuel sd = true ->
   no_double_ptr sd = true /\ param_names_ok pkg fuel sd = true.
 Proof.
   intros pkg fuel sd H. unfold c02_guard in H.
+  apply andb_true_iff in H. destruct H as [H _]. apply andb_true_iff in H. destruct H as [H _].
+  apply andb_true_iff in H. destruct H as [H _]. unfold c02_guard_core in H.
+  repeat (apply andb_true_iff in H; destruct H as [H ?]). repeat split; assumption.
+Qed.
+
+Lemma c02_guard_ext : forall pkg fuel sd, c02_guard pkg fuel sd = true ->
+  foreign_fields_exported pkg fuel sd = true /\ no_tagged_embed pkg fuel sd = true /\ no_promoted_def pkg fuel sd = true.
+Proof.
+  intros pkg fuel sd H. unfold c02_guard in H.
   repeat (apply andb_true_iff in H; destruct H as [H ?]). repeat split; assumption.
 Qed.
 
